@@ -312,7 +312,7 @@ class EdgeQLSourceGenerator(codegen.SourceGenerator):
             self._block_ws(1)
 
         if node.result_alias:
-            self.write(node.result_alias, ' := ')
+            self.write(ident_to_str(node.result_alias), ' := ')
         self.visit(node.result)
         if not node.implicit or node.aliases:
             self._block_ws(-1)
